@@ -261,7 +261,12 @@ func framingRules(p *Prog, r *Report, R string) {
 		prefix := put[0].Args[1]
 		if ipc {
 			// prefix buffer of 9 bytes: [0] = 1, length at [1:]
-			one := f.Ev("store", "~[:9][0]").Arg(0, "1")
+			// (whatever the buffer is — a made slice, a local array — byte 0 of the buffer the
+			// length goes into at offset 1)
+			one := f.Ev("store", strings.TrimSuffix(prefix, "[1:]")+"[0]").Arg(0, "1")
+			if len(one) == 0 {
+				one = f.Ev("store", "~[:9][0]").Arg(0, "1")
+			}
 			if p.Conf.GOOS == "windows" {
 				one = f.Ev("store", "~[0]").Arg(0, "1")
 			}
